@@ -337,6 +337,10 @@ def one_off_default(ctx):
     one_case(ctx, (copy.deepcopy(base_cfg), None, ["DSC"], noflags), "oneoff.global_metrics")
     one_case(ctx, (copy.deepcopy(base_cfg), [{"name": "a", "labels": [1], "merge": False, "single": False}, {"name": "b", "labels": [2, 3], "merge": False, "single": False}],
                    [], noflags), "oneoff.groups")
+    # group labels beyond 2^16 (atlas ids): they are what is written and what is read
+    ctx.count("group_labels_beyond_16_bits")
+    one_case(ctx, (copy.deepcopy(base_cfg), [{"name": "a", "labels": [1, 2], "merge": False, "single": False}, {"name": "atlas", "labels": [3, 65536, 70000, 2 ** 20 + 5], "merge": True, "single": False}],
+                   [], noflags), "oneoff.large-group-labels")
 def saved_by_name(ctx):
     """several evaluators with different settings saved *by name* (the by-name directory redirected to a scratch directory),
     the names sharing prefixes, carrying dots, version numbers and the extension; loading each name gives back what was saved
